@@ -41,15 +41,18 @@ def native_check(thm, inputs, hooks=None):
     applicable = 0
     for case in thm.cases:
         try:
-            w = bool(eval(case.when, env))
+            w = (applicable == 0) if case.when.strip() == "otherwise" else bool(eval(case.when, env))
         except Exception:  # noqa
             w = False
         if not w:
             continue
         applicable += 1
         exp_raise = case.raises is not None
-        if outcome[0] == "return" and not exp_raise:
+        either = exp_raise and bool(case.clauses())
+        if outcome[0] == "return" and (not exp_raise or either):
             for cname, clause in case.clauses():
+                if "ghost_" in clause:
+                    continue        # data-flow clause over ghost state of the symbolic run: not observable natively
                 try:
                     ok = bool(eval(clause, env))
                 except Exception as ex:  # noqa
